@@ -193,7 +193,7 @@ fn malformed<const D: usize>(id: &str, w: &mut World<D>, rng: &mut Rng, out: &mu
         let Some((bad, name)) = corrupt(&doc, kind, rng) else { continue };
         let text = bad.to_string();
         let r = catch(|| serde_json::from_str::<T<D>>(&text).map_err(|e| e.to_string()));
-        if matches!(kind, 0 | 1 | 2 | 3 | 4 | 5 | 7 | 9 | 11) {
+        if matches!(kind, 0 | 1 | 2 | 3 | 4 | 5 | 6 | 7 | 9 | 11) {
             match &r {
                 Ok(Ok(tds)) => emit_sdoc::<D>(id, name, &bad, Some(tds), "loaded", out),
                 Ok(Err(_)) => emit_sdoc::<D>(id, name, &bad, None, "rejected", out),
